@@ -87,14 +87,14 @@ def o_gauss(a):
     return ok, dict(cov_err=e, sx_over_sigma=sx, sy_over_sigma=sy, corr=rho)
 
 
-def make_image(path, data, ra0, dec0, pix_arcsec=6., dtype=float):
+def make_image(path, data, ra0, dec0, pix_arcsec=6., dtype=float, pix_y_arcsec=None):
     from astropy.io import fits
     ny, nx = data.shape
     h = fits.Header()
     h['CTYPE1'], h['CTYPE2'] = 'RA---TAN', 'DEC--TAN'
     h['CRPIX1'], h['CRPIX2'] = 0.5 * (nx + 1), 0.5 * (ny + 1)
     h['CRVAL1'], h['CRVAL2'] = ra0, dec0
-    h['CDELT1'], h['CDELT2'] = -pix_arcsec / 3600., pix_arcsec / 3600.
+    h['CDELT1'], h['CDELT2'] = -pix_arcsec / 3600., (pix_arcsec if pix_y_arcsec is None else pix_y_arcsec) / 3600.
     fits.PrimaryHDU(data=data.astype(dtype), header=h).writeto(path, overwrite=True)
 
 
@@ -118,11 +118,17 @@ def o_image(a):
     data[0, nx - 1] = 0.       # a pixel that must stay empty
     with scratch() as d:
         path = os.path.join(d, 'img.fits')
-        make_image(path, data, a['ra'], a['dec'], dtype=dtype)
+        px_as, py_as = a.get('pix', (6., 6.))         # templates need not have square pixels
+        make_image(path, data, a['ra'], a['dec'], dtype=dtype, pix_arcsec=px_as, pix_y_arcsec=py_as)
         src = xExtendedSource('e', path, *spec())
         n = 400000
         u = strat(n, g)
-        tap = rngtap.Tap(); tap.feed(u, numpy.full(n, 0.5), numpy.full(n, 0.5))      # pixel centres: no in-pixel randomisation
+        if a.get('randomize'):
+            # the in-pixel randomisation spreads the events of a pixel over that pixel and no further: uniforms over (almost) the whole range
+            r1, r2 = 0.02 + 0.96 * g.permutation(strat(n, g)), 0.02 + 0.96 * g.permutation(strat(n, g))
+        else:
+            r1 = r2 = numpy.full(n, 0.5)                                                 # pixel centres: no in-pixel randomisation
+        tap = rngtap.Tap(); tap.feed(u, r1, r2)
         with rngtap.intercept(tap):
             ra, dec = src.rvs_sky_coordinates(n)
         with fits.open(path) as h:
@@ -187,6 +193,44 @@ def o_map(a):
     mean_ratio = float(got.mean() / exp.mean())
     return rel < 0.25 and abs(mean_ratio - 1.) < 0.03 and bool((m > 0).all()), dict(interior_pixels=int(inter.sum()), max_rel_dev=rel, mean_ratio=mean_ratio,
                                                                                  map_zero_in_interior=int((m <= 0).sum()))
+
+
+def o_imgmap(a):
+    """an image-based source: the intensity map it reports on a grid finer than (and not commensurate with) its template is proportional to the
+    events it draws, pixel by pixel (every pixel of the grid lies wholly inside the template)"""
+    from ixpeobssim.srcmodel.roi import xExtendedSource
+    from ixpeobssim.utils.astro import build_wcs
+    g = numpy.random.default_rng(a['seed'])
+    ny, nx = a['shape']
+    data = g.uniform(0.3, 1., (ny, nx))
+    tpix = a['template_pix']
+    nside, pix = a['nside'], a['pix']
+    with scratch() as d:
+        path = os.path.join(d, 'img.fits')
+        make_image(path, data, a['ra'], a['dec'], pix_arcsec=tpix)
+        src = xExtendedSource('e', path, *spec())
+        w = build_wcs(a['ra'], a['dec'], nside, pix / 3600.)
+        numpy.random.seed(a['seed'])
+        imap = numpy.asarray(src.build_intensity_map(w), dtype=float)
+        n = 400000
+        tap = rngtap.Tap(); tap.feed(strat(n, g), g.permutation(strat(n, g)), g.permutation(strat(n, g)))
+        with rngtap.intercept(tap):
+            ra, dec = src.rvs_sky_coordinates(n)
+    px, py = w.wcs_world2pix(ra, dec, 0)
+    ix, iy = numpy.rint(px).astype(int), numpy.rint(py).astype(int)
+    occ = numpy.zeros((nside, nside))
+    ok = (ix >= 0) & (ix < nside) & (iy >= 0) & (iy < nside)
+    numpy.add.at(occ, (iy[ok], ix[ok]), 1)
+    if imap.shape != occ.shape:
+        return False, dict(error='map of shape %s on a %d x %d grid' % (imap.shape, nside, nside))
+    got, exp = occ / occ.sum(), imap / imap.sum()
+    rel = float(numpy.abs(got - exp).max() / exp.mean())
+    zeros = int((imap <= 0).sum())
+    # block sums (4 x 4 target pixels) average the Monte Carlo noise of both sides down
+    k = nside // 4
+    blk = lambda m: m[:4 * k, :4 * k].reshape(k, 4, k, 4).sum(axis=(1, 3))
+    relb = float(numpy.abs(blk(got) - blk(exp)).max() / blk(exp).mean())
+    return zeros == 0 and rel < 0.5 and relb < 0.12, dict(map_zero_pixels=zeros, max_rel_dev=rel, max_rel_dev_blocks=relb, events_on_grid=int(ok.sum()))
 
 
 def o_digitize(a):
@@ -265,7 +309,7 @@ def o_mctruth(a):
     return not bad and p.sum() > 100 and dmask.sum() > 100, dict(violated=bad, point_events=int(p.sum()), disk_events=int(dmask.sum()))
 
 
-ORACLES = dict(digitize=o_digitize, mctruth=o_mctruth, disk=o_disk, annulus=o_annulus, point=o_point, gauss=o_gauss, image=o_image, map=o_map)
+ORACLES = dict(digitize=o_digitize, mctruth=o_mctruth, disk=o_disk, annulus=o_annulus, point=o_point, gauss=o_gauss, image=o_image, map=o_map, imgmap=o_imgmap)
 
 
 def run_oracle(chk, name, a, nontrivial=True):
@@ -302,8 +346,12 @@ def explore(chk, budget=1):
             run_oracle(chk, 'map', dict(kind=['disk', 'annulus'][i % 4 // 2], ra=ra, dec=dec, rmin=0.02, rmax=0.05, seed=sd, overview=float(g.choice([1.6, 2.5]))))
     for (ra, dec) in centres(g, 0)[:3 if quick else 6]:
         run_oracle(chk, 'digitize', dict(ra=ra if ra > 1. else ra + 3., dec=dec, nside=int(g.choice([20, 31, 40])), pix=float(g.uniform(2., 8.)) / 3600., seed=int(g.integers(1, 10 ** 6))))
+    run_oracle(chk, 'imgmap', dict(shape=(8, 8), template_pix=16., nside=int(g.choice([24, 28])), pix=float(g.choice([3.7, 4.1])), ra=float(g.uniform(5, 355)),
+                                   dec=float(g.uniform(-15, 15)), seed=int(g.integers(1, 10 ** 6))))       # low declination: the in-pixel randomisation of xFITSImage is done in RA, DEC (recorded observation)
     run_oracle(chk, 'mctruth', dict(ra=float(g.uniform(5, 355)), dec=float(g.uniform(-60, 60)), du=int(g.integers(1, 4)), seed=int(g.integers(1, 10 ** 6))))
     run_oracle(chk, 'image', dict(shape=(128, 160) if quick else (256, 256), profile='core', ra=float(g.uniform(5, 355)), dec=float(g.uniform(-60, 60)), seed=int(g.integers(1, 10 ** 6))))
+    for shape, pix in ([((6, 8), (2., 8.)), ((8, 6), (9., 3.))] if quick else [((6, 8), (2., 8.)), ((8, 6), (9., 3.)), ((7, 7), (4., 5.)), ((5, 9), (12., 2.))]):
+        run_oracle(chk, 'image', dict(shape=shape, pix=pix, randomize=True, ra=float(g.uniform(5, 355)), dec=float(g.uniform(-60, 60)), seed=int(g.integers(1, 10 ** 6))))
     for shape in ([(7, 7), (5, 9), (9, 5)] if quick else [(7, 7), (5, 9), (9, 5), (12, 4), (3, 11), (16, 16)]):
         run_oracle(chk, 'image', dict(shape=shape, ra=float(g.uniform(5, 355)), dec=float(g.uniform(-60, 60)), seed=int(g.integers(1, 10 ** 6))), nontrivial=shape[0] != shape[1])
 
